@@ -82,7 +82,22 @@ func init() {
 				if r.Float64() < 0.4 {
 					p := paths[r.IntN(len(paths))]
 					h++
-					switch r.IntN(4) {
+					switch r.IntN(6) {
+					case 4: // consume part of the content, go back, read again, try to write, close or sync
+						out = append(out, Op{K: "open", P: p, H: h}, Op{K: "h.read", H: h, N: 1 + r.IntN(40)},
+							Op{K: "h.seek", H: h, O: int64(r.IntN(3)), W: 0}, Op{K: "h.read", H: h, N: 1 << 16})
+						if r.IntN(2) == 0 {
+							out = append(out, Op{K: "h.write", H: h, D: &Data{Len: 3, Kind: "text", Tag: uint32(h)}})
+						}
+						if r.IntN(2) == 0 {
+							out = append(out, Op{K: "h.sync", H: h})
+						}
+						out = append(out, Op{K: "h.close", H: h})
+					case 5: // positional reads at falling offsets, seek relative to the end and the cursor
+						out = append(out, Op{K: "openfile", P: p, H: h, F: []int{os.O_RDONLY, os.O_RDWR}[r.IntN(2)], M: 0o644}, // a read-only instance grants read access for both
+							Op{K: "h.readat", H: h, N: 8, O: int64(5 + r.IntN(30))}, Op{K: "h.readat", H: h, N: 8, O: int64(r.IntN(5))},
+							Op{K: "h.seek", H: h, O: -int64(r.IntN(4)), W: 2}, Op{K: "h.seek", H: h, O: -int64(r.IntN(4)), W: 1}, Op{K: "h.read", H: h, N: 64},
+							Op{K: "h.close", H: h})
 					case 0:
 						out = append(out, Op{K: "stat", P: p})
 					case 1:
